@@ -52,6 +52,10 @@ def check(repo: Repo) -> Result:
 
     r10 = res.rule("C04-R10", "the rescaled second operand keeps its own kind: complex data stay complex (a real cast drops the imaginary part, so the result depends on whether the operand needed rescaling)", floor=1)
     share(res, r10, "C17", lambda t: t.__dict__.update(c17.check(repo).__dict__), ["C17-R1"], want=lambda k: k.startswith("ufunc"))
+    from rules.ufunc import missing_unit_rule
+
+    r11 = res.rule("C04-R11", "an operand without units is given the null unit (scale 1, dimensionless), never the other operand's unit", floor=4)
+    missing_unit_rule(anchors, res, r11)
     return res
 
 
@@ -373,6 +377,7 @@ def power_gate(repo, res, a: UfuncAnchors):
 UO = "unyt/unit_object.py"
 
 MUTANTS = [
+    Mutant("bare-operand-borrows-unit", ARR, "unyt_array.__array_ufunc__", '            if u1 is None and ufunc is not power:\n                u1 = Unit(registry=getattr(u0, "registry", None))', "            if u1 is None and ufunc is not power:\n                u1 = u0", ("C04-R11",)),
     Mutant("cbrt-as-sqrt", ARR, None, "cbrt: _cbrt_unit,", "cbrt: _sqrt_unit,", ("C04-R1",)),
     Mutant("matmul-preserve", ARR, None, "matmul: _multiply_units,", "matmul: _preserve_units,", ("C04-R1",)),
     Mutant("copysign-mult", ARR, None, "copysign: _passthrough_unit,", "copysign: _multiply_units,", ("C04-R1",)),
